@@ -215,8 +215,22 @@ def sum_(a):
         else:
             total = total + x
     if first:
-        return 0.0
+        return F64(0.0)
+    if isinstance(total, float):
+        return F64(total)
     return total
+
+
+class F64(float):
+    """np.float64 stand-in: a float that accepts `list / x` like numpy scalars do"""
+
+    def __rtruediv__(self, o):
+        if isinstance(o, (list, tuple)):
+            return Arr(list(o)) / float(self)
+        return float.__rtruediv__(self, o)
+
+    def __deepcopy__(self, memo):
+        return self
 
 
 def all_(a):
